@@ -83,6 +83,79 @@ check(
     "3/C16",
 )
 
+check(
+    "C02",
+    "stateless DFS over schedules and fault points (one cancellation at every quiescent point) "
+    "of nested scope programs on the real context; differential oracle fingerprint-before == "
+    "fingerprint-after (state probe, current metrics scope, owning task group)",
+    "Every execution of every program of the stated family (endings x disposable failures x "
+    "spawned-task failures x cancellation point x completion order) is run on the real code and "
+    "the context seen after each block compared with the context seen before it.",
+    "asyncio FIFO callback order; spawn-probe ownership inferred from who waits for/cancels the "
+    "probe; depth and counts bounded as stated.",
+    "3/C02",
+)
+check(
+    "C04",
+    "explicit-state search over operation histories (mutation attempts on instance / stored / "
+    "argument containers, updated, copy, deepcopy) on real State instances + exhaustive "
+    "equality pair matrix",
+    "All histories up to length L for every instance of a 16-class catalogue, value-never-changes "
+    "reference checked after every operation; all ordered pairs / triples for the equivalence.",
+    "catalogue of classes instead of the whole annotation grammar; Any-typed attributes excluded.",
+    "3/C04",
+)
+check(
+    "C05",
+    "exhaustive enumeration of an annotation-term grammar x conforming values x one-position "
+    "breaks on the real State validation vs an independent 3-valued structural oracle",
+    "Every term of the stated grammar is declared as a State attribute and constructed with "
+    "every generated value as argument and as default; acceptance, rejection and faithful "
+    "storage compared with the oracle; complete for the grammar and value generators.",
+    "oracle written against the term AST (not haiway's resolver); unspecified cases only "
+    "checked for absence of non-Exception crashes.",
+    "3/C05",
+)
+check(
+    "C06",
+    "stateless DFS over schedules of task steps / failures / one cancellation on the real scope "
+    "+ task group",
+    "All interleavings for up to k spawned tasks (incl. grandchild, spawn via nested sync scope "
+    "/ update) and all body outcomes; all-done-at-exit, termination and "
+    "no-waiting-after-failure checked on each.",
+    "tasks do not swallow cancellation; asyncio FIFO callback order.",
+    "3/C06",
+)
+check(
+    "C07",
+    "crash-point enumeration: one cancellation at every quiescent point of every schedule of the "
+    "victim's scope program; exhaustive script enumeration for check_cancellation",
+    "For each program every interleaving and every cancellation point is executed; victim must "
+    "end cancelled with all its spawned tasks done; all scripts <= 4 ops for the check.",
+    "harness re-raises CancelledError; disposables/tasks do not swallow cancellation.",
+    "3/C07",
+)
+check(
+    "C08",
+    "stateless DFS over completion orders of suspended disposable enters/exits, failures and one "
+    "cancellation on the real scope; call-log oracle",
+    "Full product (multisets) of disposable behaviours up to k, all body outcomes, all "
+    "completion orders and cancellation points; enter-once / exit-once / exit-details / "
+    "rollback / cleanup-errors-surface evaluated from the doubles' call log.",
+    "cleanup errors count as surfaced when reachable from the caller's exception (group member "
+    "or context/cause chain).",
+    "3/C08",
+)
+check(
+    "C20",
+    "exhaustive enumeration of container shapes x obtainers (call/copy/deepcopy/pickle 0-5) and "
+    "of the predicate x look-alike matrix on the real Missing",
+    "The whole grid is enumerated; identity of every MISSING leaf after each round trip and "
+    "agreement of every predicate with identity are checked.",
+    "pickling State instances is impossible today (unrelated) and counted as skipped.",
+    "3/C20",
+)
+
 NOT_BUILT_REASON = (
     "check not built yet in this round (design in DESIGN.md section 3); not claimed until its "
     "harness exists and is silent on the unchanged tree"
